@@ -5,6 +5,7 @@ package request
 import (
 	"crypto/ecdsa"
 	"encoding/base64"
+	"encoding/hex"
 
 	"github.com/ethereum/go-ethereum/crypto"
 	"github.com/vipnode/vipnode/v2/internal/verifapi"
@@ -27,4 +28,18 @@ func verifKey(identity string) *ecdsa.PrivateKey {
 		panic(err)
 	}
 	return k
+}
+
+// verifSignV: see zz_verif_c04_sym.go.
+func verifSignV(key *ecdsa.PrivateKey, v int, method, id string, nonce int64, arg verifArgs, extra int64) (string, int64, error) {
+	for k := int64(0); k < 256; k++ {
+		sig, err := Sign(key, method, id, nonce, arg, extra+k)
+		if err != nil {
+			return "", extra, err
+		}
+		if b, derr := hex.DecodeString(sig); derr == nil && len(b) == 65 && int(b[64]) == v {
+			return sig, extra + k, nil
+		}
+	}
+	panic("no signature with the wanted recovery id")
 }
